@@ -6,6 +6,7 @@ import (
 	"bytes"
 	"fmt"
 	"reflect"
+	"sync"
 
 	"github.com/protolambda/zrnt/eth2/beacon"
 	"github.com/protolambda/zrnt/eth2/beacon/altair"
@@ -26,7 +27,24 @@ import (
 // library's OWN built-in configuration is used (so that an edited YAML constant shows up as a
 // divergence from the reference, which reads the pinned table) with only the fork schedule and
 // the names listed in `override` taken from cfg; custom presets set every constant by name.
+// usePresets: the built-in presets have been USED (by a node that ran on them, by an earlier test) before a
+// configuration is derived from them by copy-and-overwrite — the way every custom configuration is made.
+// A helper that remembers something inside the Spec value must not carry it over to the copy.
+var usePresets sync.Once
+
 func ToSpec(cfg *refspec.Config, override ...string) *common.Spec {
+	usePresets.Do(func() {
+		for _, s := range []*common.Spec{configs.Mainnet, configs.Minimal} {
+			s.SlotToEpoch(1000)
+			s.EpochStartSlot(3)
+			s.TimeToSlot(1_700_000_000, 1_600_000_000)
+			s.TimeAtSlot(1000, 1_600_000_000)
+			s.ComputeActivationExitEpoch(5)
+			for _, sl := range []common.Slot{0, 1000, 1 << 40} {
+				s.ForkVersion(sl)
+			}
+		}
+	})
 	var base common.Spec
 	switch cfg.Name {
 	case "mainnet":
